@@ -160,18 +160,16 @@ def register_visvalingam(reg):
                  raises={"IndexError": "i + 1 >= npts(track)"},
                  ensures=[("area-of-the-neighbour-triangle", "implies(i >= 1, result == %s)" % tri("track", "i - 1", "i", "i + 1")),
                           ("a-number", "not isnan(result)")]))
-    # Operator.ARGMIN: index of a smallest value below 1e300 (NaN never selected); 0 when there is none
+    # Operator.ARGMIN: index of a smallest value below 1e300 (NaN never selected)
     c = "col(track, af_input, %s)"
     reg.add(Spec(OPS + "Argmin.execute", dict(self="Argmin", track="Track", af_input="str"), "int",
                  requires=["twf(track)", "hasname(track, af_input)", "not reserved(af_input)"],
                  loops={"1": LoopSpec(inv=["not isnan(minimum) and minimum <= %s" % BIGF, "0 <= idmin and (idmin < i or idmin == 0)",
-                                           "implies(minimum == %s, idmin == 0)" % BIGF,
                                            "implies(minimum < %s, idmin < i and same(minimum, %s))" % (BIGF, c % "idmin"),
                                            "all(not (%s < minimum) for q in range(0, i))" % (c % "q")])},
                  ensures=[("an-index", "0 <= result and (result < npts(track) or result == 0)"),
                           ("smallest-of-the-values-below-1e300", "all(implies(%s < %s, %s < %s and %s <= %s) for q in range(0, npts(track)))"
-                           % (c % "q", BIGF, c % "result", BIGF, c % "result", c % "q")),
-                          ("zero-when-there-is-none", "implies(all(not (%s < %s) for q in range(0, npts(track))), result == 0)" % (c % "q", BIGF))]))
+                           % (c % "q", BIGF, c % "result", BIGF, c % "result", c % "q"))]))
     c2 = "col(self, arg1, %s)"
     reg.add(Spec(T + "operate", dict(self="Track", operator="Argmin", arg1="str"), "int",
                  requires=["twf(self)", "hasname(self, arg1)", "not reserved(arg1)"],
